@@ -28,9 +28,14 @@ import (
 
 var scopePrefixes = []string{"/pkg/backend", "/pkg/storage/memkv", "/pkg/storage/metrics", "/pkg/storage/tikv", "/pkg/metrics/prometheus", "/pkg/server"}
 
+var selfTest string // directory of the fixture module; every package of it is in scope
+
 func inScope(p *types.Package) bool {
 	if p == nil || prog == nil {
 		return false
+	}
+	if selfTest != "" {
+		return strings.HasPrefix(p.Path(), prog.Module)
 	}
 	if !strings.HasPrefix(p.Path(), prog.Module) {
 		return false
@@ -1077,7 +1082,14 @@ func main() {
 	repo := srcload.RepoDir()
 	vdir := srcload.VerifDir()
 	var err error
-	prog, err = srcload.Load(repo, "./cmd/...", "./pkg/storage/memkv", "./pkg/storage/metrics")
+	if len(os.Args) == 3 && os.Args[1] == "-selftest" {
+		// translator self-test: run the same analysis on the fixture module and compare with expected.json
+		selfTest, _ = filepath.Abs(os.Args[2])
+		repo = selfTest
+		prog, err = srcload.Load(repo, "./...")
+	} else {
+		prog, err = srcload.Load(repo, "./cmd/...", "./pkg/storage/memkv", "./pkg/storage/metrics")
+	}
 	if err != nil {
 		fmt.Fprintln(os.Stderr, "gen_accesses:", err)
 		os.Exit(2)
@@ -1251,6 +1263,10 @@ func main() {
 		}
 	}
 
+	if selfTest != "" {
+		os.Exit(compareSelfTest(locs, order))
+	}
+
 	// ---------- outputs
 	gen := filepath.Join(vdir, "coq", "Gen")
 	_ = os.MkdirAll(gen, 0o755)
@@ -1287,8 +1303,14 @@ func main() {
 	sb.WriteString("\n].\n")
 	must(os.WriteFile(filepath.Join(gen, "Accesses.v"), []byte(sb.String()), 0o644))
 	ok := "(* generated by harness/cmd/gen_accesses; the obligation a code edit breaks *)\n" +
-		"From KB Require Import Base.Bytes Model.Lockset Model.C19Cases Gen.Accesses.\n" +
-		"Theorem accesses_ok : unlisted c19_known accesses = [].\nProof. vm_compute. reflexivity. Qed.\n"
+		"From KB Require Import Base.Bytes Model.Lockset Model.C19Cases Proofs.Lockset Gen.Accesses.\n" +
+		"Theorem accesses_ok : unlisted c19_known accesses = [].\nProof. vm_compute. reflexivity. Qed.\n" +
+		"(* the soundness theorem instantiated to the table regenerated from the repository: every well-formed trace that\n" +
+		"   conforms to it is free of data races *)\n" +
+		"Theorem C19_repo_no_race : forall tr, wf tr -> conforms accesses tr -> ~ race tr.\n" +
+		"Proof.\n  intros tr Hwf Hc [[o n] Hr].\n" +
+		"  pose proof (lockset_sound_except c19_known accesses tr o n Hwf Hc accesses_ok Hr) as H.\n" +
+		"  vm_compute in H. discriminate.\nQed.\nPrint Assumptions C19_repo_no_race.\n"
 	must(os.WriteFile(filepath.Join(gen, "AccessesOk.v"), []byte(ok), 0o644))
 	var locList []*locOut
 	for _, n := range order {
@@ -1296,7 +1318,13 @@ func main() {
 	}
 	b, _ := json.MarshalIndent(map[string]interface{}{"repo": repo, "locations": locList, "sites": sites, "annotations": annots}, "", " ")
 	must(os.WriteFile(filepath.Join(vdir, "build", "gen", "accesses.json"), b, 0o644))
-	fmt.Printf("gen_accesses: %d locations, %d sites, %d flagged, annotations:", len(order), len(sites), nFlag)
+	nConf := 0
+	for _, n := range order {
+		if locs[n].Class == "CConfined" {
+			nConf++
+		}
+	}
+	fmt.Printf("gen_accesses: %d locations (%d confined), %d sites, %d flagged, annotations:", len(order), nConf, len(sites), nFlag)
 	for _, a := range annots {
 		fmt.Printf(" %s=%v", a.ID, a.Holds)
 	}
@@ -1858,4 +1886,67 @@ func (w *walker) selectorEscape(se *ast.SelectorExpr) {
 		}
 	}
 	w.addSite(fv, se.Sel.Pos(), "KWr", phase, held{}, exprPath(se.X), "returned reference to "+exprPath(se)+" (used by callers outside the lock)")
+}
+
+func compareSelfTest(locs map[string]*locOut, order []string) int {
+	var exp struct {
+		Flagged  []string `json:"flagged"`
+		Confined []string `json:"confined"`
+		Accepted []string `json:"accepted_shared"`
+	}
+	b, err := os.ReadFile(filepath.Join(selfTest, "expected.json"))
+	if err == nil {
+		err = json.Unmarshal(b, &exp)
+	}
+	if err != nil {
+		fmt.Fprintln(os.Stderr, "gen_accesses -selftest:", err)
+		return 2
+	}
+	got := map[string]string{}
+	for _, n := range order {
+		l := locs[n]
+		switch {
+		case l.Flagged:
+			got[n] = "flagged"
+		case l.Class == "CConfined":
+			got[n] = "confined"
+		default:
+			got[n] = "accepted_shared"
+		}
+	}
+	bad := 0
+	want := map[string]string{}
+	for _, n := range exp.Flagged {
+		want[n] = "flagged"
+	}
+	for _, n := range exp.Confined {
+		want[n] = "confined"
+	}
+	for _, n := range exp.Accepted {
+		want[n] = "accepted_shared"
+	}
+	for n, w := range want {
+		if got[n] != w {
+			fmt.Printf("SELFTEST MISMATCH %s: expected %s, translator says %q %v\n", n, w, got[n], pairsOf(locs[n]))
+			bad++
+		}
+	}
+	for n, g := range got {
+		if _, ok := want[n]; !ok && g == "flagged" {
+			fmt.Printf("SELFTEST MISMATCH %s: flagged but not expected %v\n", n, pairsOf(locs[n]))
+			bad++
+		}
+	}
+	if bad > 0 {
+		return 1
+	}
+	fmt.Printf("gen_accesses -selftest: %d expectations hold (%d flagged, %d confined, %d accepted)\n", len(want), len(exp.Flagged), len(exp.Confined), len(exp.Accepted))
+	return 0
+}
+
+func pairsOf(l *locOut) []string {
+	if l == nil {
+		return nil
+	}
+	return l.Pairs
 }
